@@ -174,8 +174,11 @@ def run_path(contract, world, prefix, compare_spec=True, forker=None):
             body_exc, body_res = None, None
             self_obj = args[0] if contract.is_init else None
             try:
+                hook = None
+                if contract.on_yield is not None:
+                    hook = (lambda c_: lambda it, env, v: c_.on_yield(it, env, v, args))(contract)
                 body_res = interp.call_function(node, Env(None, {}), list(args), dict(kwargs), q,
-                                                loops=contract.loops)
+                                                loops=contract.loops, on_yield=hook)
             except PyRaise as e:
                 body_exc = e.exc
             yields = list(ex.yields)
